@@ -1,16 +1,83 @@
-"""Enumeration group `remapjar` (C07): the jar level of dukebox::remap (harness kx/enum/remapjar.rs).  Placeholder texts, completed below."""
+"""Enumeration group `remapjar` (C07): the JAR LEVEL of dukebox::remap (harness kx/enum/remapjar.rs).
+
+The per-position traversal of the class tree (`impl Mappable for ...`) is checked elsewhere; this group covers what is built around it:
+remap(jar, remapper) (entry loop, remap_jar_entry_name / remap_jar_entry_name_java, non-class entries, directories), writing the result
+(ParsedJar::to_mem / write), reading it back (zip), lazily parsed class entries (dukebox/src/storage/*).
+See kx/enum/remapjar_REPORT.md for the universes, the oracle rules with their source sentences, the mutants killed and the deviations found.
+"""
+
+_CLASSES = ('four classes written by the harness: p/A (extends ext/E outside the jar, implements p/I and java/lang/Runnable; fields f:Lp/B; and the constant c:I = 7; <init>, an abstract run()V and '
+            'm(Lp/A;[Lp/B;I)Lp/B; with 31 instructions that name p/B, p/A$In, Root, [Lp/B;, [[Lp/A;, fields and methods of p/A, p/B, Root, members inherited from p/A and ext/E named through the sub class p/B, '
+            'string constants "p/A" and "Lp/B;" that only look like names, line numbers), p/B (extends p/A, overrides m), p/A$In (version 45.3, synthetic field this$0:Lp/A;), Root (default package, version 61)')
+_TABLES = ('class tables: p/A in {unmapped, p/X, q/r/A, X, p/B}, p/B in {unmapped, p/Y, p/A, q/r/B}, p/A$In in {unmapped, p/X$In, p/A$Ren}, Root in {unmapped, r/Root}, ext/E in {unmapped, ext/F} '
+           '(renamed in place, moved to another package, moved to / out of the default package, swapped, an inner class renamed with and without its outer class, a super type outside the jar renamed)')
+_MEMBERS = ('member tables (looked up in the owner, then in its super types): 0 = empty; 1 = fields p/A.f->k, p/B.g->h, ext/E.e->ee, p/A$In.this$0->outer and methods p/A.m->n, ext/E.em->en, Root.s->t, '
+            'java/lang/Runnable.run->exec; 2 and 3 = the two halves, 3 with p/B.m->n2 next to p/A.m->n')
+_FORMS = ('input forms: ParsedJar with every class as bytes (ClassRepr::Vec), as trees (ClassRepr::Parsed), alternating; zip archive in memory (UnnamedMemJar) deflated, stored')
+_OBSERVED = ('Observed: the returned ParsedJar (names, kinds), the archive written by ParsedJar::to_mem read with the zip crate (every name once; classes read by the harness\' own strict class file reader and '
+             'compared field by field with the expected model; duke::read_class agrees on the class name; non-class entries byte for byte), and the same archive re-opened through dukebox '
+             '(UnnamedMemJar::open, OpenedJar::names / entry_keys / by_name, JarEntry::to_jar_entry_enum, IsClass::read, Jar::get_super_classes_provider == the renamed super type table).')
+
 GROUP = dict(
     crate='dukebox', file='dukebox/src/remap.rs', harness_file='remapjar.rs',
-    functions=[], trusted=[],
+    functions=['dukebox/src/remap.rs::remap', 'dukebox/src/remap.rs::remap_jar_entry_name', 'dukebox/src/remap.rs::remap_jar_entry_name_java', 'dukebox/src/remap.rs::remap_class',
+               'dukebox/src/remap.rs::remap_other',
+               'dukebox/src/storage/parsed.rs::ParsedJar (Jar, OpenedJar, JarEntry impls; from_jar, write, to_mem)',
+               'dukebox/src/storage/zip_impls.rs::ZipArchive (OpenedJar impl), ZipFile (JarEntry impl: class / other / directory by name)',
+               'dukebox/src/storage/zip_mem_unnamed.rs::UnnamedMemJar (Jar impl)',
+               'dukebox/src/storage/lazy_class_file.rs::ClassRepr (IsClass impls: read, write, into_class_repr)', 'dukebox/src/storage/is_class.rs::VecClass (IsClass impl)',
+               'dukebox/src/storage/jar_entry.rs::JarEntryEnum::try_map_both', 'dukebox/src/storage/opened_jar.rs::OpenedJar::get_super_classes_provider, read_classes_into',
+               'quill/src/remapper.rs::ARemapper / BRemapper provided methods (map_class, map_class_any, map_field, map_field_ref, map_method, map_method_ref, map_*_desc) as called by remap'],
+    trusted=['remapjar harness (kx/enum/remapjar.rs): own model of a jar (ordered entries: class, non-class, directory), of a class (version, flags, name, super class, interfaces, fields with an optional int constant, '
+             'methods with max_stack / max_locals, 17 kinds of instructions that name classes / fields / methods or load constants, line numbers, SourceFile) and of a remapper (class -> class, (class, field, descriptor) -> name, '
+             '(class, method, descriptor) -> name, a super type relation for the lookup of inherited members); the remapper given to the real code is a BRemapper of the harness that answers map_class_fail / map_field_fail / '
+             'map_method_fail from these tables. Class bytes are produced by the harness\' own class file writer (with an unused constant, so a verbatim copy is told from a re-written class) and the result is read by the harness\' '
+             'own strict class file reader (any attribute, opcode or constant shape outside the model is an error); archives are written and read with the zip crate directly; trees handed over as ClassRepr::Parsed are what '
+             'duke::read_class yields for these bytes (trusted here, checked by the group `cls`); a self check before every test: own writer / own reader / duke reader+writer agree on every fixture class.',
+             'KEPT OUT of the class model on purpose, because known_findings.jsonl already lists them for C07: generic signatures, unknown attributes, Module / ModulePackages / ModuleMainClass, record components; '
+             'also absent: annotations, inner class / enclosing method / nest records, exception tables, stack map frames, local variable tables, invokedynamic (all per-position traversal, covered by the class-level checks).',
+             'Not judged (C07 is silent): the order of the entries of the result, time stamps, compression, whether directory entries are created for / removed with moved classes (the statement says non-class entries are unchanged: '
+             'directories are expected to stay as they are), the content of text files that name classes (manifest Main-Class, META-INF/services): expected byte-identical, as the statement says.',
+             'Remappers that send two class entries of the jar to one name are kept out of the passing universes and have a test of their own (jar_remap__colliding_class_names).'],
     tests=[
-        dict(name='jar_classes_renamed_member_tables_none_and_all', props=['C07'], tier='quick', timeout=300, text='x', bound='x'),
-        dict(name='jar_classes_renamed_member_tables_halves', props=['C07'], tier='quick', timeout=300, text='x', bound='x'),
-        dict(name='jar_in_every_input_form', props=['C07'], tier='quick', timeout=300, text='x', bound='x'),
-        dict(name='jar_non_class_entries_are_untouched', props=['C07'], tier='quick', timeout=300, text='x', bound='x'),
-        dict(name='jar_non_class_entries_with_the_empty_remapper', props=['C07'], tier='quick', timeout=300, text='x', bound='x'),
-        dict(name='jar_entries_in_every_order', props=['C07'], tier='quick', timeout=300, text='x', bound='x'),
-        dict(name='jar_unparsed_entries_are_copied_verbatim', props=['C07'], tier='quick', timeout=300, text='x', bound='x'),
-        dict(name='jar_remap__colliding_class_names', props=['C07'], tier='quick', timeout=300, text='x', bound='x'),
-        dict(name='jar_remap__multi_release_class_entries', props=['C07'], tier='quick', timeout=300, text='x', bound='x'),
+        dict(name='jar_classes_renamed_member_tables_none_and_all', props=['C07'], tier='quick', timeout=300,
+             text='remap of a jar: every class entry of the input yields exactly one class entry, stored under the new name of its class + ".class", holding the class with every class / field / method reference '
+                  '(own name, super class, interfaces, declarations, descriptors, instructions incl. array types and class constants, members inherited from super types inside and outside the jar) replaced by what the remapper answers '
+                  'and everything else (version, flags, max_stack / max_locals, instruction stream, string and int constants that look like names, ConstantValue, line numbers, SourceFile) unchanged; '
+                  'directories and non-class entries keep name and bytes; the result has no other entry; it is written by to_mem, re-opens as a zip archive with unique names and well-formed classes. ' + _OBSERVED,
+             bound='every non-empty subset of ' + _CLASSES + ', between META-INF/, META-INF/MANIFEST.MF, p/A.txt (with p/A) and p/; x the 120 ' + _TABLES + ' with ext/E unmapped that give the class entries of the jar different names; '
+                   'x member tables 0 and 1; ' + _MEMBERS + '; the input form rotates with the case number; ' + _FORMS + '; 3504 cases'),
+        dict(name='jar_classes_renamed_member_tables_halves', props=['C07'], tier='quick', timeout=300,
+             text='the same with partial member tables (a member renamed for one owner and not for another, the nearest listed declaration answers).',
+             bound='the same jars and class tables x member tables 2 and 3; 3504 cases'),
+        dict(name='jar_in_every_input_form', props=['C07'], tier='quick', timeout=300,
+             text='the same rules for every input form: classes handed over as bytes (lazily parsed), as trees, mixed, and read from a deflated / stored zip archive by dukebox.',
+             bound='the jar with all four classes x all 240 class tables (ext/E -> ext/F included) without a name collision (216) x member tables 1 and 3 x all 5 input forms; 2160 cases'),
+        dict(name='jar_non_class_entries_are_untouched', props=['C07'], tier='quick', timeout=300,
+             text='non-class entries and directories come out under their old names with their old bytes, exactly once, whatever they are called and contain, next to classes that are renamed; none is taken for a class.',
+             bound='all 512 subsets of nine entries: META-INF/ and p/ (directories), META-INF/MANIFEST.MF (Main-Class: p.A, a per-entry section for p/A.class), META-INF/services/p.A, p/A (the class name without suffix), '
+                   'p/A.class.txt, p/A.CLASS (holding the bytes of class p/A), empty.txt (0 bytes), bin/all.bytes (all 256 byte values); around p/A.class and p/B.class; '
+                   'class table p/A->q/r/A, p/B->p/A, ext/E->ext/F with member table 1; x all 5 input forms; 2560 cases'),
+        dict(name='jar_non_class_entries_with_the_empty_remapper', props=['C07'], tier='quick', timeout=300,
+             text='the same with a remapper that maps nothing: every entry, class entries included, keeps its name; classes keep their content.',
+             bound='the same 512 subsets x all 5 input forms with the empty remapper; 2560 cases'),
+        dict(name='jar_entries_in_every_order', props=['C07'], tier='quick', timeout=300,
+             text='the rules hold whatever the order of the entries in the input, also when classes trade names: no entry is overwritten by an earlier or later one.',
+             bound='all 120 orders of p/A.class, p/B.class, p/A$In.class, p/ (directory), p/A.txt x 6 class tables (empty; swap p/A <-> p/B; cycle p/A -> p/B -> p/A$In -> p/A; p/A -> p/B with p/B -> q/r/B; p/B -> p/A with p/A -> X; '
+                   'p/A$In -> p/X$In with p/A -> p/X) x member table 1 x all 5 input forms; 3600 cases'),
+        dict(name='jar_unparsed_entries_are_copied_verbatim', props=['C07'], tier='quick', timeout=300,
+             text='storage level without remap: ParsedJar::from_jar of a zip archive keeps every class as unparsed bytes, and to_mem writes every entry (classes, non-class entries, directories) under its name with exactly the bytes '
+                  'of the input (class bytes that duke\'s writer would not produce), each once; the written jar re-opens through dukebox with the same listing, kinds, class names and super type table.',
+             bound='16 subsets of the four classes x the 128 of the 512 subsets of the nine non-class entries with (subset number + class subset number) divisible by 4 x {stored, deflated} input archive; 4096 cases'),
+        dict(name='jar_remap__colliding_class_names', props=['C07'], tier='quick', timeout=300,
+             text='when the remapper sends two class entries of the jar to one name, "each class entry is stored under the name of its remapped class" cannot hold for both: remap must refuse (Err); returning Ok with one of the classes '
+                  'silently missing violates the sentence.',
+             bound='every non-empty subset of the four classes (plus p/A.txt) x the 240 class tables plus 4 more (p/A and p/B -> p/Z; p/A -> Root; p/A$In -> p/B; three classes -> p/Z), restricted to the pairs where two class entries '
+                   'get the same name; input as ParsedJar (bytes) and as stored zip archive'),
+        dict(name='jar_remap__multi_release_class_entries', props=['C07'], tier='quick', timeout=300,
+             text='a class entry of a multi-release jar (META-INF/versions/9/p/A.class, holding the Java 9 version of class p/A) is stored under the new name of its class as well: META-INF/versions/9/<new name>.class '
+                  '(or, when that name is free, <new name>.class); with p/A unmapped it stays where it is.',
+             bound='jars {manifest with Multi-Release: true, [p/A.class], p/B.class, META-INF/versions/9/p/A.class} with and without the base version x 4 class tables (empty; p/A->p/X; p/A->q/r/A with p/B->p/Y; p/B->p/Y) '
+                   'x member table 1 x all 5 input forms; 40 cases'),
         dict(name='canary_must_fail', props=[], canary=True, text='must fail', bound=''),
     ])
